@@ -229,7 +229,9 @@ def _all_terms(sx):
 def sweep_nf(ctx, chk, rule, qual, fields, kernel_meth, domain_is_param):
     """Normal form of a `while diff > threshold` sweep. fields: [(field, slot or None)] written per element."""
     f = ctx.func(qual)
-    sx = SymX(ctx, f, "Solver", inline_depth=4, inline_foreign=True, unroll_literals=True).run()      # helper methods of the sweep (on the solver or on a node) are judged by content
+    # helper methods of the sweep (on the solver or on a node) are judged by content; the node kernels themselves are the reference
+    # the sweep is compared with, they stay calls
+    sx = SymX(ctx, f, "Solver", inline_depth=4, inline_foreign=True, unroll_literals=True, no_inline=("value_iteration_reach", "value_iteration_rewards")).run()
     whiles = [l for l in sx.loops.values() if l.kind == "while"]
     if len(whiles) != 1:
         chk.undecided(rule, f.where(), "%d while loops found; expected the single convergence loop" % len(whiles))
